@@ -62,7 +62,9 @@ class Cosigner:
     def pub_at(self, idxs_from_root):
         """public key at an arbitrary list of indexes below the *root*, if it lies under the account (unhardened below it); else None"""
         acc = secp.parse_path(self.account_path)
-        if idxs_from_root[: len(acc)] != acc:
+        # the components above the account xpub cannot be verified from public data (they may be hardened): like any verifier that
+        # holds only xpubs, take the path relative to the xpub's depth
+        if len(idxs_from_root) < len(acc):
             return None
         pt, c = self.account_pub
         for i in idxs_from_root[len(acc) :]:
